@@ -14,7 +14,6 @@ import re
 from .. import gen as G
 from ..common import Report, stream, digest, order_to_decisions, big
 from ..engine import Engine, Monitor, Scripted
-from ..ops import canon_rt
 from ..edits import gen_edit, apply_edit
 from ..isolation import pristine_state
 from ..terms import World, snap
